@@ -1135,6 +1135,9 @@ func (tb *TB) Script(asserts []*Term, getVals []*Term) string {
 			return s + ")"
 		}
 	}
+	// z3 expands 0-ary define-fun macros at every use: with deep sharing (unrolled transition systems) that is
+	// exponential. Large scripts therefore name shared nodes with declare-const + defining equation instead.
+	flat := len(order) > 3000
 	for _, t := range order {
 		if t.Op == OConst || t.Op == OVar {
 			continue
@@ -1142,7 +1145,11 @@ func (tb *TB) Script(asserts []*Term, getVals []*Term) string {
 		if refc[t.ID] > 1 || len(t.Args) > 0 && t.Op != ONot {
 			// name every composite node: keeps lines short and avoids deep nesting
 			n := fmt.Sprintf("t%d", t.ID)
-			fmt.Fprintf(&sb, "(define-fun %s () %s %s)\n", n, sortName(t.W), expr(t))
+			if flat && refc[t.ID] > 1 {
+				fmt.Fprintf(&sb, "(declare-const %s %s)\n(assert (= %s %s))\n", n, sortName(t.W), n, expr(t))
+			} else {
+				fmt.Fprintf(&sb, "(define-fun %s () %s %s)\n", n, sortName(t.W), expr(t))
+			}
 			names[t.ID] = n
 		}
 	}
@@ -1219,4 +1226,60 @@ func Atoms(ts []*Term) (vars []*Term, ufapps []*Term) {
 		visit(t)
 	}
 	return
+}
+
+// Subst rebuilds t with the given variable terms replaced (memoised).
+func (tb *TB) Subst(t *Term, m map[*Term]*Term, memo map[*Term]*Term) *Term {
+	if r, ok := m[t]; ok {
+		return r
+	}
+	if len(t.Args) == 0 {
+		return t
+	}
+	if r, ok := memo[t]; ok {
+		return r
+	}
+	args := make([]*Term, len(t.Args))
+	changed := false
+	for i, a := range t.Args {
+		args[i] = tb.Subst(a, m, memo)
+		if args[i] != a {
+			changed = true
+		}
+	}
+	var r *Term
+	if !changed {
+		r = t
+	} else {
+		switch t.Op {
+		case ONot:
+			r = tb.Not(args[0])
+		case OAnd:
+			r = tb.And(args[0], args[1])
+		case OOr:
+			r = tb.Or(args[0], args[1])
+		case OIte:
+			r = tb.Ite(args[0], args[1], args[2])
+		case OEq:
+			r = tb.Eq(args[0], args[1])
+		case OUlt, OUle, OSlt, OSle:
+			r = tb.cmp(t.Op, args[0], args[1])
+		case OBNot:
+			r = tb.BNot(args[0])
+		case OExtract:
+			r = tb.Extract(args[0], t.A, t.B)
+		case OZext:
+			r = tb.Zext(args[0], t.W)
+		case OSext:
+			r = tb.Sext(args[0], t.W)
+		case OConcat:
+			r = tb.Concat(args[0], args[1])
+		case OUF:
+			r = tb.UF(t.Name, t.W, args...)
+		default:
+			r = tb.Bin(t.Op, args[0], args[1])
+		}
+	}
+	memo[t] = r
+	return r
 }
